@@ -51,6 +51,37 @@ def frame_obs(chk, tag, res, fq, replay=None, allow_raise=True):
     return n_ok
 
 
+def vine_frame_replay(env):
+    import warnings
+    import numpy as np
+    import pandas as pd
+    warnings.simplefilter('ignore')
+    from copulas.multivariate import VineCopula
+    bad = []
+    rs = np.random.RandomState(1)
+    X = pd.DataFrame(rs.normal(size=(60, 3)) @ rs.normal(size=(3, 3)), columns=['c', 'a', 'd'])
+    for vt in ('center', 'direct', 'regular'):
+        X0 = X.copy(deep=True)
+        u = np.array([[0.3, 0.5, 0.7]])
+        u0 = u.copy()
+        try:
+            v = VineCopula(vt)
+            v.fit(X)
+            tau0 = np.array(v.tau_mat, copy=True)
+            v.get_likelihood(u)
+            v.sample(2)
+            v.to_dict()
+            if not X.equals(X0):
+                bad.append('%s: fit modified the training table' % vt)
+            if not np.array_equal(u, u0):
+                bad.append('%s: get_likelihood modified its argument' % vt)
+            if not np.array_equal(tau0, v.tau_mat, equal_nan=True):
+                bad.append('%s: the stored Kendall matrix changed after fit' % vt)
+        except Exception as e:      # noqa
+            bad.append('%s: %s: %s' % (vt, type(e).__name__, str(e)[:100]))
+    return {'confirmed': bool(bad), 'detail': '; '.join(bad[:3]) if bad else 'native vines leave X and u untouched'}
+
+
 def native_replay(env):
     """deep-copy comparison of arguments before/after for the public entry points, natively"""
     import copy
@@ -221,6 +252,28 @@ def build(chk):
             I.call_method(m, 'sample', [msym], {'conditions': cs})
         res, ctx = engine.run_paths(I, bodyg)
         frame_obs(chk, 'GaussianMultivariate.%s' % rep, res, gm.GM, native_replay)
+    # ---- vines: fit(X), get_likelihood(u), sample(n) ---------------------------------------------------------------
+    from . import vine
+    for vt in ('center', 'direct', 'regular'):
+        for d in (2, 3):
+            I = engine.new_interp()
+            gm.install_rootfinders(I)
+            vine.install_contracts(I)
+
+            def bodyv(c, I=I, vt=vt, d=d):
+                X = gm.training_frame(vine.LABELS[:d], owner='X')
+                m = vine.fit_vine(I, c, d, vt, X=X)
+                uq = [ir.var('uq_%d' % i) for i in range(d)]
+                c.assume(ir.and_(*[ir.and_(ir.gt(x, 0), ir.lt(x, 1)) for x in uq]))
+                I.call_method(m, 'get_likelihood', [Arr2([Lane(x, 1) for x in uq], 1, owner='uni_matrix')])
+                I.call_method(m, 'sample', [1])
+                I.call_method(m, 'to_dict', [])
+            with vine.mode():
+                res, ctx = engine.run_paths(I, bodyv, max_paths=100000)
+            frame_obs(chk, 'VineCopula.%s.d%d' % (vt, d), res, vine.VINE, vine_frame_replay)
+    chk.under_contract(src, [vine.VINE + '.fit', vine.VINE + '.get_likelihood', vine.VINE + '.sample',
+                             vine.TREE + 'Tree._sort_tau_by_y', vine.TREE + 'DirectTree._build_first_tree',
+                             vine.TREE + 'Tree.get_likelihood'])
     build_plots(chk)
     chk.under_contract(src, ['copulas.visualization.' + f for f in ('scatter_2d', 'compare_2d', 'scatter_3d', 'compare_3d',
                                                                       '_generate_scatter_2d_plot', '_generate_scatter_3d_plot',
@@ -230,7 +283,6 @@ def build(chk):
     chk.assumptions += [
         'the same-result-on-a-second-call clause follows from: no argument is modified (proved) and the results are '
         'deterministic functions of the arguments and the fitted state (uninterpreted-function determinism; C11, C15)',
-        'vine entry points (VineCopula.fit, Tree.fit) are covered by the frame obligations of C16/C17',
     ]
 
 
